@@ -50,6 +50,7 @@ def foreign_names(d):
 
 
 VALUE_KINDS = ["null", "bool", "int", "str", "arr_int", "arr_str", "obj_int", "arr_scalar"]
+VALUE_KINDS_QUICK = ["null", "bool", "int", "str", "arr_int", "obj_int"]
 POSITIONS = {
     "root": lambda d, host, k, v: dict(host, **{k: v}),
     "in_items": lambda d, host, k, v: {"items": dict(host, **{k: v})},
@@ -67,7 +68,7 @@ def sigs(d, schema, x):
         raise HarnessEscape(type(e).__name__)
 
 
-def foreign(d, host, kind, name, vkind, position="root", L=2, N=2):
+def foreign(d, host, kind, name, vkind, position="root", L=2, N=2, NV=2):
     t = tp.BY_NAME[host]
     place = POSITIONS[position]
     pk = POS_KIND[position]
@@ -82,7 +83,7 @@ def foreign(d, host, kind, name, vkind, position="root", L=2, N=2):
         raise ValueError("position %s not available for kind %s" % (position, kind))
 
     def pre(x, v, *hs):
-        if not (small(x, L, N, 1) and small(v, L, N)):
+        if not (small(x, L, N, 1) and small(v, L, NV)):
             return False
         for h in hs:
             if not small(h, L, N):
@@ -142,6 +143,8 @@ def id_keyword(d):
 HOSTS = [("maximum", "int"), ("g_string", "str"), ("type", "int"), ("enum", "int"), ("items_tuple", "arr_int"), ("required", "obj_int"),
          ("g_min_excl_bool", "int"), ("anyOf", "int"), ("uniqueItems", "arr_int"), ("additionalProperties_bool", "obj_int"),
          ("if_then_else", "int"), ("extends_d3", "int"), ("properties", "obj_int"), ("dependencies_array", "obj_int")]
+HOSTS_QUICK = [("maximum", "int"), ("type", "int"), ("items_tuple", "arr_int"), ("g_min_excl_bool", "int"), ("anyOf", "int"),
+               ("uniqueItems", "arr_int"), ("if_then_else", "int"), ("extends_d3", "int"), ("minLength", "str"), ("not", "int")]
 
 
 def conditions(tier, seed, active):
@@ -155,25 +158,27 @@ def conditions(tier, seed, active):
     for d in (3, 4, 6, 7):
         c("id-keyword/d%d" % d, "id_keyword", dict(d=d), ["valid", "invalid"])
         names = foreign_names(d)
-        hosts = [(h, k) for h, k in HOSTS if d in tp.BY_NAME[h].drafts]
+        hosts = [(h, k) for h, k in (HOSTS_QUICK if quick else HOSTS) if d in tp.BY_NAME[h].drafts]
+        nv = 1 if quick else 2
         for name in names:
             # every foreign name at the root of one host with one value kind (seeded rotation in quick; all value kinds in thorough)
-            for vk in (VALUE_KINDS if not quick else [rng.choice(VALUE_KINDS)]):
+            for vk in (VALUE_KINDS if not quick else [rng.choice(VALUE_KINDS_QUICK)]):
                 h, k = rng.choice(hosts)
-                c("root/%s=%s/%s/d%d" % (name, vk, h, d), "foreign", dict(d=d, host=h, kind=k, name=name, vkind=vk))
+                c("root/%s=%s/%s/d%d" % (name, vk, h, d), "foreign", dict(d=d, host=h, kind=k, name=name, vkind=vk, NV=nv))
             if not quick or rng.random() < 0.25:
                 for pos in ("in_items", "in_properties", "in_applicator", "in_dependencies"):
                     if quick and rng.random() < 0.5:
                         continue
                     h, k = rng.choice([hk for hk in hosts if hk[1] == "int"])
-                    vk = rng.choice(VALUE_KINDS)
-                    c("%s/%s=%s/%s/d%d" % (pos, name, vk, h, d), "foreign", dict(d=d, host=h, kind=k, name=name, vkind=vk, position=pos, L=1))
+                    vk = rng.choice(VALUE_KINDS_QUICK if quick else VALUE_KINDS)
+                    c("%s/%s=%s/%s/d%d" % (pos, name, vk, h, d), "foreign", dict(d=d, host=h, kind=k, name=name, vkind=vk, position=pos, L=1, NV=nv))
         # next to $ref: any keyword of the draft itself as well
-        own = sorted(VOCAB[d] - {"$ref", "definitions", "id", "$id", "$schema"})
+        # (Draft 3 `required` next to $ref inside `properties` is read lexically by the parent: excluded by the property)
+        own = sorted(VOCAB[d] - {"$ref", "definitions", "id", "$id", "$schema"} - ({"required"} if d == 3 else set()))
         cands = own + names[:10]
         if quick:
             cands = rng.sample(cands, 12)
         for name in cands:
-            vk = rng.choice(VALUE_KINDS)
+            vk = rng.choice(VALUE_KINDS_QUICK if quick else VALUE_KINDS)
             c("next-to-ref/%s=%s/d%d" % (name, vk, d), "next_to_ref", dict(d=d, name=name, vkind=vk), ["valid", "invalid"])
     return out
